@@ -1351,7 +1351,9 @@ impl KotoVm {
                             }
                         }
                         Some(KIteratorOutput::Error(error)) => {
-                            return runtime_error!(error.to_string());
+                            // Propagate the error itself rather than its rendered message,
+                            // so that thrown values and the error's kind are preserved.
+                            return Err(error);
                         }
                         None => None,
                     }
